@@ -7,6 +7,7 @@ import (
 	publictypes "lunar/engine/streams/public-types"
 	streamtypes "lunar/engine/streams/types"
 	"lunar/toolkit-core/otel"
+	"lunar/toolkit-core/verifhook"
 
 	lunar_metrics "lunar/engine/metrics"
 
@@ -87,6 +88,7 @@ func (p *limiterProcessor) Execute(
 		return streamtypes.ProcessorIO{}, err
 	}
 
+	verifhook.Yield("limiter.between-inc-and-allowed", apiStream.GetID())
 	isAllowed, err := quota.Allowed(apiStream)
 	if err != nil {
 		return streamtypes.ProcessorIO{}, err
